@@ -491,6 +491,10 @@ func (env *scratchEnv) decide(rt *rapid.T, rec *kit.Rec, sigPrefix string, src s
 	if b.Exit != 0 {
 		rec.Label("rejected")
 		rec.Label("rejected:build")
+		if dir := os.Getenv("C13_DUMP_REJECTED"); dir != "" { // development aid: look at what does not compile
+			_ = os.MkdirAll(dir, 0o755)
+			_ = os.WriteFile(filepath.Join(dir, fmt.Sprintf("%s-%d-%d.txt", strings.ReplaceAll(sigPrefix, "|", "_"), os.Getpid(), env.seq)), []byte(src+"\n---- go build ----\n"+tail(b.Out, 40)+"\n"), 0o644)
+		}
 	} else {
 		rec.Label("accepted")
 	}
@@ -573,4 +577,5 @@ func TestScratch(t *testing.T) {
 			})
 		})
 	adaptorCheck(t, env)
+	generateCheck(t, env)
 }
